@@ -428,6 +428,9 @@ func (i *interpreter) globalOK(g *ssa.Global) bool {
 	switch g.String() {
 	case "crypto/rand.Reader":
 		return true
+	case "os.Stderr", "os.Stdout", "os.Stdin", "os.Args":
+		// opaque handles (nil inside the engine): only passed to intrinsics
+		return true
 	}
 	return strings.HasSuffix(g.Name(), "init$guard")
 }
